@@ -33,6 +33,8 @@ def run(prog, chk):
         "the above / below anchor filters of abvm / blwm are complementary by construction and each feature uses its own (R06.13)",
         "the ligature component number is the whole trailing run of digits of the anchor name (regex AST of LIGA_NUM_RE) (R06.14)",
     ]
+    chk.decided += ["a mark class definition already present in the feature file stands for the anchor about to be written only when the two are equal field by field (x, y, contour point, device "
+                    "tables) by plain equality - a variable anchor never equals a fixed one, so its per-master values are not replaced by the default master's (R06.18 = R10.8)"]
     chk.decided += ["a mark feature is only dropped when it would be empty: the nothing-to-write return of each feature builder tests every lookup list that is written into the feature "
                     "(a feature holding only mark-to-mark lookups is still emitted) (R06.17)"]
     chk.decided += ["the mark-class conflict graph is complete and symmetric: for every mark glyph, every pair of its classes is connected in both directions before the graph is coloured "
@@ -56,6 +58,7 @@ def run(prog, chk):
     chk.guard(r0615, prog, chk)
     chk.guard(r0616, prog, chk)
     chk.guard(r0617, prog, chk)
+    chk.guard(r0618, prog, chk, "R06.18")
     from .rounding import check_no_truthiness_on_coordinates
     n = check_no_truthiness_on_coordinates(prog, chk, "R06.9", [MARK, "ufo2ft.featureWriters.baseFeatureWriter"])
     need(n >= 40, "truthiness scan found too few tests")
@@ -921,7 +924,55 @@ def r0617(prog, chk):
     chk.minimum("R06.17", 3)
 
 
+# ----------------------------------------------------------------------------- R06.18 (= R10.8)
+def r0618(prog, chk, rule="R06.18"):
+    ix = prog.ix
+    f = ix.get_method(f"{MARK}.MarkFeatureWriter", "_defineMarkClass", own=True)
+    rets = [r for r in A.returns_of(f.node) if r.value is None or A.is_const(r.value, None)]
+    need(len(rets) >= 1, f"cannot interpret {f.short}: 'already defined' return")
+    n = 0
+    for r in rets:
+        gs = [g for g in conds(prog, f, r) if g.polarity is True and g.kind in ("if", "boolop")]
+        eq = None
+        for g in gs:
+            t = g.test
+            # the comparison helper may have been inlined at the call site, or still be a call
+            if isinstance(t, ast.Call) and A.callee_name(t) != "all":
+                try:
+                    ts, how = prog.resolve_callee(f, t.func)
+                except Exception:
+                    ts, how = [], ""
+                if how == "exact" and len(ts) == 1 and isinstance(ts[0], FuncInfo) and len(A.returns_of(ts[0].node)) == 1:
+                    t = A.returns_of(ts[0].node)[0].value
+            if isinstance(t, ast.Call) and A.callee_name(t) == "all" and len(t.args) == 1 and isinstance(t.args[0], (ast.GeneratorExp, ast.ListComp)):
+                eq = (g, t.args[0])
+        if eq is None:
+            continue
+        n += 1
+        g, gen = eq
+        elt = gen.elt
+        ok = isinstance(elt, ast.Compare) and len(elt.ops) == 1 and isinstance(elt.ops[0], ast.Eq) \
+            and all(isinstance(x, ast.Call) and A.callee_name(x) == "getattr" and len(x.args) == 2 for x in (elt.left, elt.comparators[0])) \
+            and len(gen.generators) == 1 and not gen.generators[0].ifs
+        fields = set()
+        if ok:
+            var = gen.generators[0].target
+            ok = isinstance(var, ast.Name) and T(elt.left.args[1]) == var.id and T(elt.comparators[0].args[1]) == var.id and T(elt.left.args[0]) != T(elt.comparators[0].args[0])
+            it = gen.generators[0].iter
+            fields = {x.value for x in it.elts if isinstance(x, ast.Constant)} if isinstance(it, (ast.Tuple, ast.List)) else set()
+            ok = ok and {"x", "y", "contourpoint", "xDeviceTable", "yDeviceTable"} <= fields
+        chk.ob(rule, f"{f.short}|an existing definition is reused only when every anchor field is equal (plain ==)", ok, where(f, r), detail=T(gen, 90),
+               message=f"{f.short}: an existing markClass definition is taken to cover the anchor about to be written under a comparison other than field-by-field equality "
+                       f"(`{T(gen, 70)}`): a mark whose anchor differs (in another master, or in a field that is not compared) silently gets the existing anchor")
+    need(n >= 1, f"cannot interpret {f.short}: anchor comparison of the 'already defined' return")
+    chk.minimum(rule, 1)
+
+
 MUTANTS = [
+    M("a variable anchor 'equals' an existing fixed mark class anchor when the default master agrees (seeded C10j)", "ufo2ft/featureWriters/markFeatureWriter.py", "MarkFeatureWriter._anchorsAreEqual",
+      "getattr(a1, attr) == getattr(a2, attr)", "getattr(getattr(a1, attr), 'default', getattr(a1, attr)) == getattr(getattr(a2, attr), 'default', getattr(a2, attr))", rule="R06.18"),
+    M("existing mark class reused when only x and y agree", "ufo2ft/featureWriters/markFeatureWriter.py", "MarkFeatureWriter._anchorsAreEqual",
+      "('x', 'y', 'contourpoint', 'xDeviceTable', 'yDeviceTable')", "('x', 'y')", rule="R06.18"),
     M("abvm / blwm dropped when it only holds mark-to-mark lookups (seeded C06j)", "ufo2ft/featureWriters/markFeatureWriter.py", "MarkFeatureWriter._makeAbvmOrBlwmFeature",
       "any([baseLkps, ligaLkps, mkmkLookups])", "any([baseLkps, ligaLkps])", rule="R06.17"),
     M("mark feature dropped when it only holds contextual lookups", "ufo2ft/featureWriters/markFeatureWriter.py", "MarkFeatureWriter._makeMarkFeature",
